@@ -8,7 +8,7 @@ use crate::prng::Prng;
 pub const META_C13: Meta = Meta {
     id: "C13",
     level: "fault_enumeration",
-    rule: "Cases are sampled from profiles `attrib`+`expand` (layouts of 0-7 outputs, C/X rows, loops); for each case the fault-free run is recorded first, then faults are ENUMERATED, not sampled: (F) for every call index c of the fault-free call log (constructor, checked and write-only calls alike) the driver returns Err(nonce_c) at c: c=0 must make try_iter return that very error, otherwise every item before the row owning call c must be identical to the fault-free run and that row must be the driver-error item carrying (nonce_c, c); (D) for every output-reading call c >= 1 of a checked row and every deviation kind {drop an entry, add an unknown signal, add an input signal, duplicate an entry, swap two entries, substitute another signal at a position}: items before are identical, that row must be a runtime-error item, and in every row returned anywhere each reported output must equal what the device reported for that same signal in that call (or X if unsupplied); (C) one pure re-ordering per case is run to the END with the caller continuing past the error item, and everything after it must be what the reference prescribes (the values read by later expressions are those the device reported for those signals). evaluations = number of faulted executions. Non-trivial = fault-free run has >= 3 calls including a write-only one and the layout has >= 2 outputs (distinct by case text+signals+script).",
+    rule: "Cases are sampled from profiles `attrib`+`expand` (layouts of 0-7 outputs, C/X rows, loops); for each case the fault-free run is recorded first, then faults are ENUMERATED, not sampled: (F) for every call index c of the fault-free call log (constructor, checked and write-only calls alike) the driver returns Err(nonce_c) at c: c=0 must make try_iter return that very error, otherwise every item before the row owning call c must be identical to the fault-free run and that row must be the driver-error item carrying (nonce_c, c); (D) for every output-reading call c >= 1 of a checked row and every deviation kind {drop an entry, add an unknown signal, add an input signal, duplicate an entry, swap two entries, substitute another signal at a position, substitute a look-alike of the slot's own signal - same name, another type / width / default}: items before are identical, that row must be a runtime-error item, and in every row returned anywhere each reported output must equal what the device reported for that same signal in that call (or X if unsupplied); (C) one pure re-ordering per case is run to the END with the caller continuing past the error item, and everything after it must be what the reference prescribes (the values read by later expressions are those the device reported for those signals). evaluations = number of faulted executions. Non-trivial = fault-free run has >= 3 calls including a write-only one and the layout has >= 2 outputs (distinct by case text+signals+script).",
     assumptions: &["device answers are a pure function of (call index, signal), so the prefix before a fault is comparable item by item", "deviations at forwarded mid-clock calls are invisible by construction of the default write_input and are not enumerated"],
     quick_cases: 12000,
     thorough_cases: 200000,
